@@ -5,7 +5,8 @@ ENTRY = dict(
          "TLS 1.2+1.3), one virtual clock for both ends. Corpus: every predefined ClientHelloID and 12 seeded randomized ones "
          "(classified by reflection over their spec: session_ticket / pre_shared_key / extended_master_secret / psk modes) twice "
          "against each server kind; PSK parrots with and without OmitEmptyPsk and through a PatchBuiltHello length observer; pairs "
-         "differing in extended_master_secret; two server names; clock advances up to 7 days + 1 s; InsecureSkipVerify mixes; "
+         "differing in extended_master_secret; server-name shapes (two DNS names, a trailing dot, IPv4/IPv6 literals reaching one listener, "
+         "no ServerName with InsecureSkipVerify = remote-address key); clock advances up to 7 days + 1 s; InsecureSkipVerify mixes; "
          "server version changes. Then -n random histories. A history is one case (per connection: spec features, name, server, "
          "time, observed error class, DidResume, offered session kind, EMS in hello, HRR, cache content afterwards); every hello "
          "with pre_shared_key adds a length-accounting case. Distinct by the plan; non-trivial when some connection offered a session.",
@@ -14,6 +15,8 @@ ENTRY = dict(
                   "the Go server of the same package as the RFC-level peer",
                   "HMAC output size = hash size (premise of the binder theorem)"],
     assumes=["fewer server names in use than the LRU capacity (C36: the cache then is a map)",
+             "strings (server names, remote addresses) are represented by identities assigned by the runner: equal id = equal string",
+             "a connection without ServerName has InsecureSkipVerify (otherwise the handshake is refused before the hello is built)",
              "the server's own cipher-suite choice and ticket length are inputs of the model (taken from the observation)",
              "binder validity is crypto: the model server accepts every binder; the real server's acceptance is observed",
              "InsecureSkipTimeVerify / InsecureServerNameToVerify unset; no client certificates; no QUIC / 0-RTT; no ECH"],
